@@ -2,7 +2,7 @@
    planner_parser_regexp.go agree with the left-to-right reading of the token list:
      collectGroupNames lists the names in the order of the opening parentheses (pre-order, NOT the order in which the
      groups close), and String() is the text with every `(?P<name>` replaced by `(`. *)
-From Coq Require Import List String Ascii Bool Lia.
+From Coq Require Import List String Ascii Bool Lia PeanoNat.
 From Qryn Require Import lib.Strs model.LogqlRegexp.
 Import ListNotations.
 Open Scope string_scope.
@@ -155,3 +155,128 @@ Example noncapturing_names : re_plan "(?i)(?P<a>(?:x|y)+)(?P<b>)" = Some ("(?i)(
 Proof. reflexivity. Qed.
 Example nested_names : re_plan "(?P<ip>(?P<n>\d+)\.\d+) (x)" = Some ("((\d+)\.\d+) (x)", ["ip"; "n"; ""]).
 Proof. reflexivity. Qed.
+
+(* ---------- the fuel of the recursive descent is never what makes it fail ---------- *)
+Lemma take_simple_len : forall ts s r, take_simple ts = (s, r) -> (List.length r <= List.length ts)%nat.
+Proof.
+  induction ts as [|t ts IH]; intros s r H; cbn [take_simple] in H.
+  - injection H as <- <-. apply le_n.
+  - destruct (simple_tok t).
+    + destruct (take_simple ts) as [a b] eqn:E. injection H as <- <-. specialize (IH a b eq_refl). cbn [List.length]. lia.
+    + injection H as <- <-. apply le_n.
+Qed.
+Lemma parts_rest_len : forall f ts ps rest, parts f ts = Some (ps, rest) -> (List.length rest <= List.length ts)%nat.
+Proof.
+  induction f as [|f IH]; intros ts ps rest H; [discriminate|]. cbn [parts] in H.
+  assert (Hsimple : forall t ts0, (let '(s, r) := take_simple (t :: ts0) in
+                     match parts f r with Some (ps0, r2) => Some (RSimple s :: ps0, r2) | None => None end) = Some (ps, rest) ->
+                    (List.length rest <= List.length (t :: ts0))%nat).
+  { intros t ts0 H'. destruct (take_simple (t :: ts0)) as [s r] eqn:Ets. destruct (parts f r) as [[ps0 r2]|] eqn:Ep; [|discriminate].
+    injection H' as <- <-. pose proof (take_simple_len _ _ _ Ets). pose proof (IH _ _ _ Ep). lia. }
+  destruct ts as [|t ts]; [injection H as <- <-; apply le_n|].
+  destruct t as [| | | | |s|s]; try (now apply Hsimple).
+  - destruct ts as [|t1 ts]; [discriminate|]. destruct t1 as [| | | | |name|s1]; try discriminate.
+    destruct ts as [|t2 ts]; [discriminate|]. destruct t2; try discriminate.
+    destruct (parts f ts) as [[tail r1]|] eqn:Ep1; [|discriminate]. destruct r1 as [|c r2]; [discriminate|]. destruct c; try discriminate.
+    destruct (parts f r2) as [[ps0 r3]|] eqn:Ep2; [|discriminate]. injection H as <- <-.
+    pose proof (IH _ _ _ Ep1) as L1. pose proof (IH _ _ _ Ep2) as L2. cbn [List.length] in *. lia.
+  - destruct (parts f ts) as [[body r1]|] eqn:Ep1; [|discriminate]. destruct r1 as [|c r2]; [discriminate|]. destruct c; try discriminate.
+    destruct body; [discriminate|]. destruct (parts f r2) as [[ps0 r3]|] eqn:Ep2; [|discriminate]. injection H as <- <-.
+    pose proof (IH _ _ _ Ep1) as L1. pose proof (IH _ _ _ Ep2) as L2. cbn [List.length] in *. lia.
+  - destruct (parts f ts) as [[body r1]|] eqn:Ep1; [|discriminate]. destruct r1 as [|c r2]; [discriminate|]. destruct c; try discriminate.
+    destruct body; [discriminate|]. destruct (parts f r2) as [[ps0 r3]|] eqn:Ep2; [|discriminate]. injection H as <- <-.
+    pose proof (IH _ _ _ Ep1) as L1. pose proof (IH _ _ _ Ep2) as L2. cbn [List.length] in *. lia.
+  - injection H as <- <-. apply le_n.
+Qed.
+
+(* with more fuel than tokens the answer does not depend on the fuel: None is a grammar error *)
+Lemma parts_fuel : forall f g ts, (List.length ts < f)%nat -> (List.length ts < g)%nat -> parts f ts = parts g ts.
+Proof.
+  induction f as [|f IH]; intros g ts Hf Hg; [lia|]. destruct g as [|g]; [lia|]. cbn [parts].
+  assert (Hsimple : forall t ts0, ts = t :: ts0 -> simple_tok t <> None ->
+            (let '(s, r) := take_simple (t :: ts0) in
+             match parts f r with Some (ps0, r2) => Some (RSimple s :: ps0, r2) | None => None end)
+            = (let '(s, r) := take_simple (t :: ts0) in
+               match parts g r with Some (ps0, r2) => Some (RSimple s :: ps0, r2) | None => None end)).
+  { intros t ts0 -> Hs. cbn [take_simple]. destruct (simple_tok t) as [txt|]; [|congruence].
+    destruct (take_simple ts0) as [a b] eqn:E. pose proof (take_simple_len _ _ _ E). cbn [List.length] in Hf, Hg.
+    rewrite (IH g b) by lia. reflexivity. }
+  destruct ts as [|t ts]; [reflexivity|]. cbn [List.length] in Hf, Hg.
+  destruct t as [| | | | |s|s].
+  - destruct ts as [|t1 ts']; [reflexivity|]. destruct t1 as [| | | | |name|s1]; try reflexivity.
+    destruct ts' as [|t2 ts'']; [reflexivity|]. destruct t2; try reflexivity.
+    cbn [List.length] in *.
+    rewrite (IH g ts'') by lia. destruct (parts g ts'') as [[tail r1]|] eqn:Ep; [|reflexivity].
+    destruct r1 as [|c r2]; [reflexivity|]. destruct c; try reflexivity.
+    pose proof (parts_rest_len _ _ _ _ Ep) as L. cbn [List.length] in L. rewrite (IH g r2) by lia. reflexivity.
+  - rewrite (IH g ts) by lia. destruct (parts g ts) as [[body r1]|] eqn:Ep; [|reflexivity].
+    destruct r1 as [|c r2]; [reflexivity|]. destruct c; try reflexivity. destruct body; [reflexivity|].
+    pose proof (parts_rest_len _ _ _ _ Ep) as L. cbn [List.length] in L. rewrite (IH g r2) by lia. reflexivity.
+  - rewrite (IH g ts) by lia. destruct (parts g ts) as [[body r1]|] eqn:Ep; [|reflexivity].
+    destruct r1 as [|c r2]; [reflexivity|]. destruct c; try reflexivity. destruct body; [reflexivity|].
+    pose proof (parts_rest_len _ _ _ _ Ep) as L. cbn [List.length] in L. rewrite (IH g r2) by lia. reflexivity.
+  - reflexivity.
+  - apply (Hsimple TCCBrack ts eq_refl). discriminate.
+  - apply (Hsimple (TIdent s) ts eq_refl). discriminate.
+  - apply (Hsimple (TChar s) ts eq_refl). discriminate.
+Qed.
+
+Lemma take_ident_len : forall s a b, take_ident s = (a, b) -> (String.length b <= String.length s)%nat.
+Proof.
+  induction s as [|c r IH]; intros a b H; cbn [take_ident] in H.
+  - injection H as <- <-. apply le_n.
+  - destruct (is_ident_char c).
+    + destruct (take_ident r) as [a0 b0] eqn:E. injection H as <- <-. specialize (IH a0 b0 eq_refl). cbn [String.length]. lia.
+    + injection H as <- <-. apply le_n.
+Qed.
+Lemma drop_s_len : forall n s, (String.length (drop_s n s) <= String.length s)%nat.
+Proof.
+  induction n as [|n IH]; intros s; [apply le_n|]. destruct s as [|c r]; [apply le_n|]. cbn [drop_s String.length]. specialize (IH r). lia.
+Qed.
+Lemma lex_fuel : forall f g s, (String.length s <= f)%nat -> (String.length s <= g)%nat -> lex f s = lex g s.
+Proof.
+  induction f as [|f IH]; intros g s Hf Hg.
+  - destruct s; [|cbn [String.length] in Hf; lia]. destruct g; reflexivity.
+  - destruct g as [|g].
+    + destruct s; [reflexivity|cbn [String.length] in Hg; lia].
+    + destruct s as [|c r]; [reflexivity|]. cbn [String.length] in Hf, Hg. cbn [lex].
+      assert (Hr : forall t rest, (String.length rest <= String.length r)%nat ->
+                match lex f rest with Some ts => Some (t :: ts) | None => None end
+                = match lex g rest with Some ts => Some (t :: ts) | None => None end).
+      { intros t rest Hl. rewrite (IH g rest) by lia. reflexivity. }
+      destruct (prefixb "(?P<" (String c r)).
+      { apply Hr. change (drop_s 4 (String c r)) with (drop_s 3 r). apply drop_s_len. }
+      destruct (prefixb "(?" (String c r)).
+      { apply Hr. change (drop_s 2 (String c r)) with (drop_s 1 r). apply drop_s_len. }
+      destruct (Ascii.eqb c "("); [apply Hr, le_n|].
+      destruct (Ascii.eqb c ")"); [apply Hr, le_n|].
+      destruct (Ascii.eqb c ">"); [apply Hr, le_n|].
+      destruct (is_ident_start c).
+      { destruct (take_ident r) as [a b] eqn:E. apply Hr. exact (take_ident_len _ _ _ E). }
+      destruct (Ascii.eqb c "\").
+      { destruct r as [|d r2]; [apply Hr, le_n|]. destruct (Ascii.eqb d lf_char); [apply Hr, le_n|].
+        apply Hr. cbn [String.length]. lia. }
+      destruct (Ascii.eqb c lf_char); [reflexivity|]. apply Hr, le_n.
+Qed.
+
+(* re_plan with any larger fuel: None means the lexer has no rule for a byte or the grammar rejects the tokens *)
+Theorem re_plan_fuel_irrelevant re f g : (String.length re <= f)%nat ->
+  (forall ts, (List.length ts < g ts)%nat) ->
+  match lex f re with
+  | Some ts => match parts (g ts) ts with Some (p :: ps, []) => Some (ast_string (p :: ps), ast_names (p :: ps) []) | _ => None end
+  | None => None end = re_plan re.
+Proof.
+  intros Hf Hg. unfold re_plan, lex_re, parse_toks. rewrite (lex_fuel f (String.length re) re Hf (le_n _)).
+  destruct (lex (String.length re) re) as [ts|]; [|reflexivity].
+  rewrite (parts_fuel (g ts) (S (List.length ts)) ts (Hg ts) (Nat.lt_succ_diag_r _)).
+  destruct (parts (S (List.length ts)) ts) as [[[|p ps] [|t r]]|]; reflexivity.
+Qed.
+
+Lemma grammar_fuel_irrelevant :
+  (forall f re, (String.length re <= f)%nat -> lex f re = lex_re re)
+  /\ (forall f ts, (List.length ts < f)%nat -> parts f ts = parts (S (List.length ts)) ts).
+Proof.
+  split.
+  - intros f re H. exact (lex_fuel f (String.length re) re H (le_n _)).
+  - intros f ts H. exact (parts_fuel f (S (List.length ts)) ts H (Nat.lt_succ_diag_r _)).
+Qed.
